@@ -377,6 +377,46 @@ theorem addHydrogens_ids : ∀ (l : List Nat) (nxt : Nat) (m : Mol),
       simp only [List.map_append, this, List.map_cons, List.map_nil, List.length_cons, List.range'_succ,
         List.append_assoc, List.singleton_append]
 
+theorem lookup_append_some {β : Type} (l1 l2 : List (Nat × β)) (k : Nat) (v : β) (h : l1.lookup k = some v) :
+    (l1 ++ l2).lookup k = some v := by
+  induction l1 with
+  | nil => simp [List.lookup] at h
+  | cons p tl ih =>
+    obtain ⟨k0, b⟩ := p
+    simp only [List.cons_append, List.lookup] at h ⊢
+    cases hb : (k == k0) with
+    | true => simp only [hb] at h ⊢; exact h
+    | false => simp only [hb] at h ⊢; exact ih h
+
+/-- the loop of `explicify_hydrogens` never overwrites a neighbour dict: each existing one is kept as a prefix, and what is
+    appended are single bonds to atoms numbered `nxt` or higher -/
+theorem addHydrogens_rows : ∀ (l : List Nat) (nxt : Nat) (m : Mol) (n : Nat) (row : List (Nat × Bond)),
+    m.adj.lookup n = some row →
+    ∃ ext, (addHydrogens l nxt m).adj.lookup n = some (row ++ ext) ∧ ∀ kb ∈ ext, nxt ≤ kb.1 ∧ kb.2 = ⟨1, none⟩ := by
+  intro l
+  induction l with
+  | nil => intro nxt m n row h; exact ⟨[], by simp [addHydrogens, h], by simp⟩
+  | cons a tl ih =>
+    intro nxt m n row h
+    simp only [addHydrogens]
+    let f : Nat × List (Nat × Bond) → Nat × List (Nat × Bond) :=
+      fun p => if p.1 == a then (p.1, p.2 ++ [(nxt, (⟨1, none⟩ : Bond))]) else p
+    have hf : ∀ p, (f p).1 = p.1 := by intro p; simp only [f]; split <;> rfl
+    have h1 : ((m.adj.map f) ++ [(nxt, [(a, (⟨1, none⟩ : Bond))])]).lookup n = some (f (n, row)).2 :=
+      lookup_append_some _ _ n _ (by rw [lookup_map_key f hf, h]; rfl)
+    obtain ⟨ext, he, hall⟩ := ih (nxt + 1)
+      ⟨m.atoms.map (setHEntry a (some 0)) ++ [(nxt, { z := 1, implH := some 0 })], (m.adj.map f) ++ [(nxt, [(a, ⟨1, none⟩)])]⟩
+      n (f (n, row)).2 h1
+    by_cases hna : (n == a) = true
+    · refine ⟨(nxt, ⟨1, none⟩) :: ext, ?_, ?_⟩
+      · rw [he]; simp only [f, hna, if_true, List.append_assoc, List.singleton_append]
+      · intro kb hkb
+        cases List.mem_cons.mp hkb with
+        | inl e => subst e; exact ⟨Nat.le_refl _, rfl⟩
+        | inr e => exact ⟨Nat.le_of_succ_le (hall kb e).1, (hall kb e).2⟩
+    · refine ⟨ext, ?_, fun kb hkb => ⟨Nat.le_of_succ_le (hall kb hkb).1, (hall kb hkb).2⟩⟩
+      rw [he]; simp only [f, hna]; rfl
+
 /-- everything of an atom entry except the hydrogen mark and the stereo label -/
 def atomCore (p : Nat × Atom) : Nat × Nat × Option Nat × Int × Bool := (p.1, p.2.z, p.2.isotope, p.2.charge, p.2.radical)
 
